@@ -3,16 +3,22 @@
 # of /repo (so /repo itself is never touched) and prints one matrix row per seed. Scratch directories are removed.
 # usage: driver/seedmatrix.sh [seed names...]      env: PROPS="C01 C02 ..."   JOBS=4
 cd "$(dirname "$0")/.."
+VERIF_ORIG=$(pwd)
 seeds="$@"; [ -z "$seeds" ] && seeds=$(ls seeded)
+# work from a snapshot of /verif (driver, model, proofs, compiled files, corpus) so that it can be edited meanwhile
+snap=/tmp/seedsnap_$$; rm -rf $snap; mkdir -p $snap
+rsync -a --exclude .git --exclude .build --exclude seeded --exclude evidence --exclude replays ./ $snap/
+mkdir -p $snap/seeded; for s in $seeds; do cp -r seeded/$s $snap/seeded/; done
+cd $snap
 props=${PROPS:-"C01 C02 C03 C04 C05 C06 C07 C08 C09 C10 C11 C12 C13 C14 C15 C16 C17 C18"}
 jobs=${JOBS:-4}
-mkdir -p .build/matrix
+mkdir -p $VERIF_ORIG/.build/matrix
 one() {
   name=$1
   wt=/tmp/seedwt_$name; hd=/tmp/seedh_$name; bd=/tmp/seedb_$name
   rm -rf $wt $hd $bd; git -C /repo worktree prune
   git -C /repo worktree add -q --detach $wt HEAD || return
-  git -C $wt apply /verif/seeded/$name/patch.diff || { echo "$name: patch does not apply"; return; }
+  git -C $wt apply $snap/seeded/$name/patch.diff || { echo "$name: patch does not apply"; return; }
   mkdir -p $hd $bd/ev $bd/rp; cp -r harness/src harness/Cargo.toml harness/Cargo.lock harness/.cargo $hd/
   sed -i "s#path = \"/repo\"#path = \"$wt\"#" $hd/Cargo.toml
   row=""
@@ -20,8 +26,8 @@ one() {
     out=$(CACHED_REPO=$wt VERIF_BUILD_DIR=$bd VERIF_HARNESS_DIR=$hd VERIF_EVIDENCE_DIR=$bd/ev VERIF_REPLAYS_DIR=$bd/rp ./check $p 2>&1); rc=$?
     if [ $rc -eq 0 ]; then row="$row $p:-"; else
       if echo "$out" | grep VIOLATION | grep -qv no-failing-input-found; then row="$row $p:INPUT"; else row="$row $p:nofi"; fi
-      echo "$out" | grep VIOLATION | head -3 > .build/matrix/$name.$p.txt
-      for f in $(echo "$out" | grep -o 'replay=[^ ]*' | cut -d= -f2 | head -2); do cp $f .build/matrix/$name.$p.$(basename $f) 2>/dev/null; done
+      echo "$out" | grep VIOLATION | head -3 > $VERIF_ORIG/.build/matrix/$name.$p.txt
+      for f in $(echo "$out" | grep -o 'replay=[^ ]*' | cut -d= -f2 | head -2); do cp $f $VERIF_ORIG/.build/matrix/$name.$p.$(basename $f) 2>/dev/null; done
     fi
   done
   echo "ROW $name$row"
@@ -33,3 +39,4 @@ for s in $seeds; do
   n=$((n+1)); if [ $((n % jobs)) -eq 0 ]; then wait; fi
 done
 wait
+cd /; rm -rf $snap
